@@ -36,6 +36,10 @@ type Field struct {
 // Name returns the field name, given the receiver and the unsafe import, if needed.
 func (f *Field) Name(recv string, unsafePkg Import) string {
 	if !f.Private() || !f.external {
+		if strings.HasPrefix(recv, "*") {
+			// the receiver is a dereferenced pointer to a pointer: *this.name would select first and dereference second.
+			recv = "(" + recv + ")"
+		}
 		return recv + "." + f.name
 	}
 	return `*(*` + f.typeStr() + `)(` + unsafePkg() + `.Pointer(` + recv + `.FieldByName("` + f.name + `").UnsafeAddr()))`
